@@ -106,6 +106,8 @@ pub fn main(tier: Tier, seed: u64) -> i32 {
                 plan.push((3, leader, consts, vec![true, leader == 0, true]));
             }
         }
+        plan.push((3, 0, vec![1], vec![true, true, false]));
+        plan.push((3, 2, vec![0, 2], vec![false, true, true]));
     } else {
         plan.push((3, 1, vec![], vec![true, false, true]));
     }
@@ -114,6 +116,7 @@ pub fn main(tier: Tier, seed: u64) -> i32 {
     let mut histories = 0u64;
     let mut configs = vec![];
     let mut all_done = true;
+    let mut kinds: std::collections::BTreeSet<String> = Default::default();
     for (ci, (n, leader, consts, outs)) in plan.iter().enumerate() {
         if budget.exhausted() {
             all_done = false;
@@ -123,26 +126,32 @@ pub fn main(tier: Tier, seed: u64) -> i32 {
         let (sp, expected) = spec(*n, *leader, consts, outs.clone());
         let pols = vec![make_policies(&sp, comp_id(seed, ci as u64))];
         let space = SrvSpace { n: *n, concurrency: 1, policies: pols, seed: crate::exec::mix(seed, 1300 + ci as u64), msg_policy: MsgPolicy::Eager };
-        let ex = explore(&space, vec![], &coordination_only, &budget, if tier.is_thorough() { 200_000 } else { 6_000 }, false);
+        let ex = explore(&space, vec![], &coordination_only, &budget, if tier.is_thorough() { 200_000 } else { 6_000 }, true);
+        for (_, s) in &ex.complete {
+            for (_, _, k) in &s.state_kinds {
+                kinds.insert(k.clone());
+            }
+        }
         states += ex.states;
         transitions += ex.transitions;
-        histories += ex.complete.len() as u64;
         if ex.capped {
             all_done = false;
         }
         for m in ex.machinery.iter().take(3) {
             rep.machinery(m.clone());
         }
-        for (h, snap) in &ex.complete {
+        let leaves: Vec<_> = ex.complete.iter().filter(|(h, s)| s.enabled.iter().all(|e| !coordination_only(h, e))).collect();
+        histories += leaves.len() as u64;
+        for (h, snap) in leaves.iter().map(|x| (&x.0, &x.1)) {
             if let Err((class, d)) = oracle(snap, *n, outs, expected, 1) {
                 rep.violation(class, format!("n={n} leader={leader} consts_from={consts:?} outputs={outs:?}: {d}; history {h:?}"), json!({"kind":"srv","n":n,"leader":leader,"consts_from":consts,"outputs":outs,"history":h}));
             }
         }
-        if rep.samples.len() < 3 && !ex.complete.is_empty() {
-            let (h, s) = &ex.complete[ex.complete.len() / 2];
+        if rep.samples.len() < 3 && !leaves.is_empty() {
+            let (h, s) = leaves[leaves.len() / 2];
             rep.sample(json!({"n": n, "leader": leader, "consts_from": consts, "history": h.iter().map(|e| format!("{e:?}")).collect::<Vec<_>>(), "outputs": s.outputs.iter().map(|o| format!("party {} <- {:?}", o.party, o.result)).collect::<Vec<_>>(), "mpc_messages": s.msgs_delivered}));
         }
-        configs.push(json!({"n": n, "leader": leader, "consts_from": consts, "outputs": outs, "states": ex.states, "transitions": ex.transitions, "complete_histories": ex.complete.len(), "max_depth": ex.max_depth, "cap_hit": ex.capped}));
+        configs.push(json!({"n": n, "leader": leader, "consts_from": consts, "outputs": outs, "states": ex.states, "transitions": ex.transitions, "complete_histories": leaves.len(), "max_depth": ex.max_depth, "cap_hit": ex.capped}));
     }
     rep.evaluations = histories;
     rep.distinct_nontrivial = histories;
@@ -150,6 +159,7 @@ pub fn main(tier: Tier, seed: u64) -> i32 {
     rep.set("transitions", json!(transitions));
     rep.set("traces_validated_against_impl", json!(states));
     rep.set("configurations", json!(configs));
+    rep.set("state_kinds_observed", json!(kinds));
     rep.exhaustive = Some(all_done);
     rep.rule = "per configuration (n, leader, which parties supply constants, which parties name an output destination): breadth-first enumeration of all event histories over {inject schedule_p, deliver / answer each validate, run and consts RPC, compile completion of p} on the real PolicyState actors (current-thread tokio, paused clock, owned transport); MPC messages are delivered FIFO per pair whenever pending; histories with equal per-process projections are merged (Mazurkiewicz canonical form); states = canonical histories executed, every one of them is an execution of the implementation".into();
     rep.assumptions = vec![
